@@ -35,6 +35,14 @@ def lane_words(idb, data):
     return ws
 
 
+def status_flags(rng):
+    """the fields of a TDT / DDW0 that carry detector status, not protocol: lane status (bits 55:0), the three timeout bits of a
+    TDT (63:61), transmission timeout (65), lane starts violation (67) -- any value is conforming"""
+    if rng.random() < 0.6:
+        return {}
+    return {"lane_status": rng.choice([0, rng.getrandbits(56), 3 << (2 * rng.randrange(28))]), "b8_extra": rng.choice([0, 0x02, 0x08, 0x0A])}
+
+
 class Link:
     def __init__(self, rng, link_id, layer, stave, fmt=2, version=7, stave_level=False, calib=False):
         self.rng = rng
@@ -49,7 +57,7 @@ class Link:
         self.fee = (layer << 12) | (rng.randrange(4) << 8) | stave
         self.fmt = fmt
         self.version = version
-        self.orbit = rng.randrange(1, 1 << 31)
+        self.orbit = rng.choice([rng.randrange(1, 1 << 31), rng.randrange(1 << 32), 0xFFFFFFFF, 0xFFFFFFFE, 0])
         self.pktcnt = 0
         self.stave_level = stave_level
         if layer <= 2:
@@ -124,7 +132,7 @@ class Link:
                     prev = 0
                     for k in cuts:
                         cur += with_cdw(cur, data[prev:k])
-                        cur.append(itsgen.tdt(packet_done=0))
+                        cur.append(itsgen.tdt(packet_done=0, b7=rng.choice([0, 0, 0x20, 0x40, 0x80, 0xE0]), **status_flags(rng)))
                         pages.append(cur)
                         cur = [itsgen.ihw(self.lanes_mask),
                                itsgen.tdh(trigger_type=ttype, internal=internal, no_data=0, continuation=1, bc=bc, orbit=self.orbit)]
@@ -132,7 +140,7 @@ class Link:
                     cur += with_cdw(cur, data[prev:])
                 else:
                     cur += with_cdw(cur, data)
-                cur.append(itsgen.tdt(packet_done=1))
+                cur.append(itsgen.tdt(packet_done=1, b7=rng.choice([0, 0, 0x20, 0x40, 0x80, 0xE0]), **status_flags(rng)))
             first = False
             bc += rng.randrange(1, 40)
             if s + 1 < nslots and rng.random() < 0.3:
@@ -143,9 +151,14 @@ class Link:
         for i, ws in enumerate(pages):
             p = itsgen.payload(ws, self.fmt)
             out.append((self.rdh(len(p), i, 0, bc0, trig_rdh), p))
-        p = itsgen.payload([itsgen.ddw0()], self.fmt)
+        p = itsgen.payload([itsgen.ddw0(**status_flags(rng))], self.fmt)
         out.append((self.rdh(len(p), len(pages), 1, bc0, trig_rdh), p))
-        self.orbit = (self.orbit + 1) & 0xFFFFFFFF
+        # the next heartbeat frame carries a DIFFERENT orbit (checks_list.md); it usually is the next one, but nothing says it has to be
+        # larger: wrap-around of the 32-bit counter, concatenated time frames
+        prev = self.orbit
+        self.orbit = rng.choice([(prev + 1) & 0xFFFFFFFF] * 3 + [rng.randrange(1 << 32), (prev - rng.randrange(1, 1000)) & 0xFFFFFFFF])
+        if self.orbit == prev:
+            self.orbit = (prev + 1) & 0xFFFFFFFF
         return out
 
 
